@@ -170,6 +170,68 @@ func treeScenario(depth int) mc.Scenario {
 	}}
 }
 
+// chainScenario: "nested to any depth" -- every leaf under chains of 1..maxDepth
+// layers built from one wrapper, and from every ordered pair of wrappers
+// alternating (the full trees above stop at depth 4-6).
+func chainScenario(maxDepth int) mc.Scenario {
+	return mc.Scenario{Name: fmt.Sprintf("error-chains/depth<=%d", maxDepth), Params: map[string]any{"max_depth": maxDepth}, Weight: 50, Run: func(c *mc.Ctx) {
+		ls, ws := leaves(), wrappers()
+		n := 0
+		if err := log.Init(false, "", false); err != nil {
+			fail(c, "setup", "init", "%v", err)
+			return
+		}
+		check := func(desc string, err error) {
+			raw := err.Error()
+			var out string
+			func() {
+				defer func() {
+					if r := recover(); r != nil {
+						fail(c, "no-panic", "panic", "ElideError(%s) panicked: %v", desc, r)
+					}
+				}()
+				out = log.ElideError(err)
+			}()
+			n++
+			if leaks(raw) == "" {
+				return
+			}
+			if l := leaks(out); l != "" {
+				fail(c, "scrubbed", "leak/deep/"+shapeKey(desc), "safe logging: ElideError(%s) = %q reveals %q", desc, out, l)
+			}
+		}
+		for _, l := range ls {
+			for i, w1 := range ws {
+				for j, w2 := range ws {
+					if j < i {
+						continue // (w1,w2) and (w2,w1) differ only in which is outermost at a given depth: both parities are covered below
+					}
+					err := l.mk()
+					desc := l.desc
+					for d := 1; d <= maxDepth; d++ {
+						w := w1
+						if d%2 == 0 {
+							w = w2
+						}
+						err = w.wrap(err)
+						if d <= 3 || d >= 5 { // depths 1..3 are in the trees; keep them cheap but present
+							desc = fmt.Sprintf("%s x%d{%s}", w.desc, d, l.desc)
+							check(fmt.Sprintf("%s/%s alternating, depth %d, leaf %s", w1.desc, w2.desc, d, l.desc), err)
+						}
+						if c.Failed() {
+							return
+						}
+					}
+					_ = desc
+				}
+			}
+		}
+		c.AddExecutions(int64(n))
+		c.Count("deep_chain_evaluations", int64(n))
+		c.Observe("n", n)
+	}}
+}
+
 // shapeKey: outermost wrapper + innermost leaf identify the failing call site
 func shapeKey(desc string) string {
 	outer := desc
@@ -256,5 +318,10 @@ func main() {
 			emit(treeScenario(k))
 		}
 		emit(addrScenario())
+		cd := 24
+		if cfg.Thorough() {
+			cd = 80
+		}
+		emit(chainScenario(cd))
 	})
 }
